@@ -183,3 +183,48 @@ func VerifHarness_C08_O5() {
 	verifCrashFree("fast-forward-hostile-response", func() { vc.c.fastForward(block, frame) })
 	verifReach("end")
 }
+
+
+// C08/O6 — a membership request with a hostile (unknown) type that went
+// through consensus must not crash the node when its receipt is processed
+// (same obligation as C10/O1, whose receipts include an unknown type).
+func VerifHarness_C08_O6() { VerifHarness_C10_O1() }
+
+// C08/O2fork — a Byzantine validator pushes a CORRECTLY SIGNED fork (its
+// self-parent is one of its older events, its index arbitrary): the fork is
+// skipped, and the node keeps processing subsequent valid messages (it still
+// creates self-events and accepts the sender's next genuine event).
+func VerifHarness_C08_O2fork() {
+	vn := verifNewNode(3, 0, 1000)
+	vn.seed([]int{1, 2, 0}) // validator 1 has two events
+	vn.n.SetState(state.Babbling)
+	c := vn.n.core
+	// a fork of validator 1 on top of its FIRST event, validly signed, with a symbolic index
+	k1 := verifKey(1)
+	first, _ := vn.store.ParticipantEvent(vn.peers[1].PubKeyString(), 0)
+	idx := verifNondetInt("forkIndex")
+	fork := hg.NewEvent([][]byte{[]byte("fork")}, nil, nil, []string{first, ""}, keysPub(1), idx)
+	fork.Body.Timestamp = 555
+	fh, _ := fork.Body.Hash()
+	fork.Signature = verifSignature(k1, fh, true)
+	fork.SetWireInfo(0, 0, -1, vn.peers[1].ID())
+	before := vn.store.KnownEvents()[vn.peers[1].ID()]
+	var r1 net.RPCResponse
+	if verifCrashFree("fork-push-does-not-crash", func() {
+		r1 = vn.rpc(&net.EagerSyncRequest{FromID: vn.peers[1].ID(), Events: []hg.WireEvent{fork.ToWire()}})
+	}) {
+		return
+	}
+	_ = r1
+	verifAssert("fork-not-inserted", vn.store.KnownEvents()[vn.peers[1].ID()] == before)
+	// the sender's next genuine event, then a genuine event of validator 2
+	r2 := vn.rpc(&net.EagerSyncRequest{FromID: vn.peers[1].ID(), Events: []hg.WireEvent{vn.wireEventOf(1)}})
+	er2, ok2 := r2.Response.(*net.EagerSyncResponse)
+	verifAssert("next-genuine-event-of-the-forker-accepted", r2.Error == nil && ok2 && er2.Success && vn.store.KnownEvents()[vn.peers[1].ID()] == before+1)
+	seq := c.seq
+	r3 := vn.rpc(&net.EagerSyncRequest{FromID: vn.peers[2].ID(), Events: []hg.WireEvent{vn.wireEventOf(2)}})
+	er3, ok3 := r3.Response.(*net.EagerSyncResponse)
+	verifAssert("subsequent-valid-push-processed", r3.Error == nil && ok3 && er3.Success)
+	verifAssert("node-still-creates-self-events", c.seq > seq || len(c.transactionPool) == 0)
+	verifReach("end")
+}
